@@ -479,12 +479,17 @@ class ExcelParser(ExcelParserTokens):
             # standard postfix operators
             if ("%".find(currentChar()) != -1):
                 if (len(token) > 0):
-                    tokens.add(float(token) / 100, self.TOK_TYPE_OPERAND)
+                    try:
+                        # A percent literal is one number.
+                        tokens.add(float(token) / 100, self.TOK_TYPE_OPERAND)
+                    except ValueError:
+                        # A reference followed by %.
+                        tokens.add(token, self.TOK_TYPE_OPERAND)
+                        tokens.add(currentChar(), self.TOK_TYPE_OP_POST)
                     token = ""
                 else:
                     tokens.add('*', self.TOK_TYPE_OP_IN)
                     tokens.add(0.01, self.TOK_TYPE_OPERAND)
-                # tokens.add(currentChar(), self.TOK_TYPE_OP_POST)
                 offset += 1
                 continue
 
